@@ -69,6 +69,23 @@ Theorem c37_distance_order_total_preorder :
 Proof. exact dist_le_total_preorder. Qed.
 Print Assumptions c37_distance_order_total_preorder.
 
+(** What the two byte-level notions mean for real ids ([KB_ID_LEN] bytes, each below 256):
+    the order NearestPeers sorts by is the numeric order of the XOR distances (the byte strings
+    read as big-endian numbers), and CommonPrefixLen is the number of leading zero bits of the XOR
+    distance written with 8*KB_ID_LEN bits, i.e. the number of leading bits two ids share. *)
+Theorem c37_distance_order_is_numeric :
+  forall (target : peer_id) (p q : peer),
+    wf_id target -> wf_id (fst p) -> wf_id (fst q) ->
+    (dist_le target p q <-> (xor_dist target (fst p) <= xor_dist target (fst q))%N).
+Proof. exact dist_le_numeric. Qed.
+Print Assumptions c37_distance_order_is_numeric.
+
+Theorem c37_cpl_is_shared_prefix_bits :
+  forall a b : peer_id, wf_id a -> wf_id b ->
+    cpl a b = 8 * KB_ID_LEN - N.size_nat (xor_dist a b).
+Proof. exact cpl_numeric. Qed.
+Print Assumptions c37_cpl_is_shared_prefix_bits.
+
 (** Non-vacuity, and the F14 scenario itself: bucket size 1, the local id inserted first, then
     two peers at common prefix lengths 0 and 159.  The history runs to completion, the table has
     unfolded to 162 buckets with the three peers in buckets 0, 159 and 160, and a query returns the
